@@ -1,5 +1,6 @@
 # Licensed under a 3-clause BSD style license - see LICENSE.rst
 
+import os
 import warnings
 from dataclasses import dataclass
 
@@ -57,6 +58,11 @@ def _write_fits(regions, filename, header=None, overwrite=False):
         If True, overwrite the output file if it exists. Raises an
         `OSError` if False and the output file exists. Default is False.
     """
+    # as the DS9 and CRTF writers do: a path that exists only as a
+    # (dangling) symbolic link exists, too
+    if os.path.lexists(filename) and not overwrite:
+        raise OSError(f'{filename} already exists')
+
     output = _serialize_fits(regions)
 
     if header is None:
